@@ -3,6 +3,7 @@ package main
 // Translation of contract expressions (Node) to SMT terms in a symbolic state.
 
 import (
+	"regexp"
 	"fmt"
 	"go/ast"
 	"go/constant"
@@ -424,6 +425,13 @@ func (e *Env) evalIdent(n *Node) specVal {
 					return specVal{t: e.fr.pureTerm(e.st, x, e.li), typ: x.Type(), st: e.st}
 				}
 			}
+		}
+	}
+	if e.atSite && e.li == nil && e.retBlock != nil && e.fr != nil {
+		// at a site inside a loop body the latest definition (a merge phi or a reference after the
+		// loop head) is more recent than the loop-head phi
+		if sv, ok := e.sourceVarMode(name, e.retBlock, e.inOld); ok {
+			return sv
 		}
 	}
 	if e.li == nil && e.retBlock != nil && e.fr != nil {
@@ -1019,6 +1027,47 @@ func (e *Env) evalCall(n *Node) specVal {
 				e.fail("ncalls() takes a function name")
 			}
 			return specVal{t: v.heap(e.st, v.ghostKey("ncalls!"+args[0].Name, "Int")), typ: tInt}
+		case "mtnreq", "mtnleaf":
+			// mtnreq(t) / mtnleaf(t): proof requests / leaves of merkle tree t so far
+			x := e.eval(args[0])
+			nreq, _, _, nleaf, _ := v.mtKeys()
+			k := nreq
+			if fn.Name == "mtnleaf" {
+				k = nleaf
+			}
+			return specVal{t: sel(v.heap(e.st, k), x.t), typ: tInt}
+		case "mtreq", "mtleaf":
+			// mtreq(t, k): txid of the k-th proof request; mtleaf(t, j): j-th leaf
+			x := e.eval(args[0])
+			i := e.eval(args[1])
+			_, req, _, _, leaf := v.mtKeys()
+			k := req
+			if fn.Name == "mtleaf" {
+				k = leaf
+			}
+			term := sel(sel(v.heap(e.st, k), x.t), i.t)
+			if e.pats != nil {
+				if _, isQ := (*e.pats)[i.t]; isQ {
+					(*e.pats)[i.t] = append((*e.pats)[i.t], term)
+				}
+			}
+			return specVal{t: term, typ: v.eng.lookupType(pkgBitcoin, "Hash32")}
+		case "mtregleaf":
+			// mtregleaf(t, k): leaf position recorded for the k-th proof request
+			x := e.eval(args[0])
+			i := e.eval(args[1])
+			_, _, regLeaf, _, _ := v.mtKeys()
+			term := sel(sel(v.heap(e.st, regLeaf), x.t), i.t)
+			if e.pats != nil {
+				if _, isQ := (*e.pats)[i.t]; isQ {
+					(*e.pats)[i.t] = append((*e.pats)[i.t], term)
+				}
+			}
+			return specVal{t: term, typ: tInt}
+		case "blkpos":
+			// blkpos(b): how many transactions GetNextTx has handed out from block b
+			x := e.eval(args[0])
+			return specVal{t: sel(v.heap(e.st, v.ghostKey("blk.pos", "(Array Int Int)")), "(i.val "+x.t+")"), typ: tInt}
 		case "nseed":
 			return specVal{t: v.heap(e.st, v.ghostKey("nseed", "Int")), typ: tInt}
 		case "clock":
@@ -1060,7 +1109,7 @@ func (e *Env) evalCall(n *Node) specVal {
 				if ne.depth > 20 {
 					e.fail("spec recursion too deep at %s", fn.Name)
 				}
-				return ne.eval(sd.Body)
+				return e.memoMacro(fn.Name, ne.eval(sd.Body))
 			}
 		}
 		// uninterpreted spec function from the ext table
@@ -1099,7 +1148,7 @@ func (e *Env) evalCall(n *Node) specVal {
 				ne.fr = nil
 				ne.li = nil
 				ne.depth++
-				return ne.eval(sd.Body)
+				return e.memoMacro(fn.Name, ne.eval(sd.Body))
 			}
 		}
 	}
@@ -1164,6 +1213,10 @@ var specUFs = map[string]specUF{
 	"SeedAt":        {"uf!SeedAt", extType(pkgBitcoin, "Hash32")},
 	"BlockValid":    {"uf!BlockMerkleValid", basicType(types.Bool)},
 	"TxWithID":      {"uf!TxWithID", func(e *Engine) types.Type { return types.NewPointer(e.lookupType(pkgWire, "MsgTx")) }},
+	"ProofTx":       {"uf!proofTx", extType(pkgBitcoin, "Hash32")},
+	"ProofRoot":     {"uf!proofRoot", extType(pkgBitcoin, "Hash32")},
+	"BlockHeaderOf": {"uf!blockHeader", extType(pkgWire, "BlockHeader")},
+	"Relevant":      {"uf!Relevant", basicType(types.Bool)},
 	"KeyEq":         {"uf!PublicKeyEqual", basicType(types.Bool)},
 	"SigVerify":     {"uf!SigVerify", basicType(types.Bool)},
 	"AcceptSigHash": {"uf!AcceptSigHash", extType(pkgBitcoin, "Hash32")},
@@ -1182,6 +1235,7 @@ func (e *Env) sourceVar(name string, at *ssa.BasicBlock) (specVal, bool) {
 
 func (e *Env) sourceVarMode(name string, at *ssa.BasicBlock, valuesOnly bool) (specVal, bool) {
 	var best *ssa.DebugRef
+	var bestPhi *ssa.Phi
 	bestDepth, bestIdx := -1, -1
 	for _, b := range e.fr.fn.Blocks {
 		if (b == at && !e.atSite) || !b.Dominates(at) {
@@ -1192,6 +1246,12 @@ func (e *Env) sourceVarMode(name string, at *ssa.BasicBlock, valuesOnly bool) (s
 			depth++
 		}
 		for i, in := range b.Instrs {
+			if phi, isPhi := in.(*ssa.Phi); isPhi && phi.Comment == name {
+				if depth > bestDepth || depth == bestDepth && i > bestIdx {
+					bestPhi, best, bestDepth, bestIdx = phi, nil, depth, i
+				}
+				continue
+			}
 			dr, ok := in.(*ssa.DebugRef)
 			if !ok {
 				continue
@@ -1208,9 +1268,15 @@ func (e *Env) sourceVarMode(name string, at *ssa.BasicBlock, valuesOnly bool) (s
 				continue // the reference was implicitly converted (e.g. to an interface): not the variable's own value
 			}
 			if depth > bestDepth || depth == bestDepth && i > bestIdx {
-				best, bestDepth, bestIdx = dr, depth, i
+				best, bestPhi, bestDepth, bestIdx = dr, nil, depth, i
 			}
 		}
+	}
+	if bestPhi != nil {
+		if val, have := e.fr.vals[bestPhi]; have && val.Loc == nil && val.T != "" {
+			return specVal{t: val.T, typ: bestPhi.Type(), st: e.st}, true
+		}
+		return specVal{}, false
 	}
 	if best == nil {
 		return specVal{}, false
@@ -1346,4 +1412,33 @@ func fnHasLocal(fn *ssa.Function, name string) bool {
 		localNames[fn] = m
 	}
 	return m[name]
+}
+
+var qvarRe = regexp.MustCompile(`[A-Za-z_][A-Za-z0-9_.]*!(?:q|u)[0-9]+`)
+
+// memoMacro: a large closed boolean instance of a spec macro is given a name (one Bool constant
+// per distinct expanded text), so that the same invariant over the same heap versions is the same
+// atom wherever it occurs — premises and goals that repeat it match without re-proving nested
+// quantifiers.
+func (e *Env) memoMacro(name string, r specVal) specVal {
+	v := e.v
+	if r.typ != tBool || len(r.t) < 300 || !strings.Contains(r.t, "forall") {
+		return r
+	}
+	for _, tok := range qvarRe.FindAllString(r.t, -1) {
+		if !strings.Contains(r.t, "("+tok+" ") {
+			return r // a quantified variable of an enclosing binder occurs free
+		}
+	}
+	if v.macCache == nil {
+		v.macCache = map[string]string{}
+	}
+	if n, ok := v.macCache[r.t]; ok {
+		r.t = n
+		return r
+	}
+	n := v.smt.define("mac."+sanitize(name), "Bool", r.t)
+	v.macCache[r.t] = n
+	r.t = n
+	return r
 }
